@@ -13,7 +13,7 @@ def _edit_coord(c, da, name, newvals):
     return da
 
 
-@contract(SA + "dd", props=["C18"], name="after_dir_edit", scenarios=[{"dims": ("pos", "freq", "dir"), "history": "edit_dir"}])
+@contract(SA + "dd", props=["C18", "C01"], name="after_dir_edit", scenarios=[{"dims": ("pos", "freq", "dir"), "history": "edit_dir"}])
 def v_dd_after_edit(c, dims, history):
     """da.spec.dd ; da['dir'] = other directions ; da.spec.dd  ==  dd of the new directions"""
     da = c.spectrum(dims, min_nd=2)
@@ -36,7 +36,7 @@ def v_dd_after_edit(c, dims, history):
     c.ensure_eq("dd_reflects_current_directions", second, s_dd(c.m, View(da)))
 
 
-@contract(SA + "df", props=["C18"], name="after_freq_edit", scenarios=[{"dims": ("pos", "freq", "dir"), "history": "edit_freq"}])
+@contract(SA + "df", props=["C18", "C01"], name="after_freq_edit", scenarios=[{"dims": ("pos", "freq", "dir"), "history": "edit_freq"}])
 def v_df_after_edit(c, dims, history):
     da = c.spectrum(dims, min_nf=2)
     first = da.spec.df
@@ -50,7 +50,7 @@ def v_df_after_edit(c, dims, history):
     c.ensure_eq("df_reflects_current_frequencies", c.value(second, {"freq": i}), s_df(c.m, V, i))
 
 
-@contract(SA + "hs", props=["C18"], name="after_dir_edit", scenarios=[{"dims": ("pos", "freq", "dir"), "history": "hs_edit_dir_hs"}],
+@contract(SA + "hs", props=["C18", "C01"], name="after_dir_edit", scenarios=[{"dims": ("pos", "freq", "dir"), "history": "hs_edit_dir_hs"}],
           uses=[])
 def v_hs_after_edit(c, dims, history):
     """a statistic computed before and after an in-place coordinate edit"""
@@ -74,6 +74,21 @@ def v_hs_after_edit(c, dims, history):
     V = View(da)
     pos = c.position(V)
     c.ensure_eq("hs_reflects_current_directions", c.value(second, pos), s_hs(c.m, V, pos))
+
+
+@contract(SA + "hs", props=["C18", "C01"], name="after_freq_edit", scenarios=[{"dims": ("pos", "freq", "dir"), "history": "hs_edit_freq_hs"}],
+          uses=[])
+def v_hs_after_freq_edit(c, dims, history):
+    """hs ; da['freq'] = other frequencies (e.g. rad/s -> Hz) ; hs  ==  the integral over the CURRENT axis"""
+    da = c.spectrum(dims, min_nf=2)
+    first = da.spec.hs()
+    n = View(da).NF
+    new = c.array("f2", (n,), sorted_inc=True, positive=True)
+    da["freq"] = new
+    second = da.spec.hs()
+    V = View(da)
+    pos = c.position(V)
+    c.ensure_eq("hs_reflects_current_frequencies", c.value(second, pos), s_hs(c.m, V, pos))
 
 
 SD = "wavespectra.specdataset:SpecDataset."
